@@ -3,7 +3,6 @@ C10, round 6 — helper lemmas: the loop body regenerated from `instance.Run` (C
 composed with the guns of `Model.C10`.
 -/
 import Pandora.Gen.InstLoop
-import Pandora.Gen.RespGuard
 import Pandora.Model.C10R6
 import Pandora.Proofs.C10R4
 
@@ -137,18 +136,5 @@ theorem runPool_ids_pos {ι : Type} (cfg : AutoTagCfg) (c : Nat) (plans : List (
   obtain ⟨k, ⟨hk1, hk2⟩, hk⟩ := this
   have : (c + k) % idModulus = c + k := Nat.mod_eq_of_lt (by omega)
   omega
-
-/-! ### the decision to fire, against C19's regenerated facts about `instance.Run` and `Waiter.IsSlowDown` (read-only) -/
-
-theorem fireDecision_regenerated (d s : Bool) : fireDecision d s = Gen.RespGuard.instanceShootCond d s := by
-  cases d <;> cases s <;> rfl
-
-theorem instanceShootCond_atoms_known : Gen.RespGuard.instanceShootCondUnknownAtoms = [] := by decide
-
-theorem maxOverdue_regenerated : (maxOverdueNanos : Int) = Gen.RespGuard.maxOverdueNanos := by decide
-
-/-- `IsSlowDown`: false once the context is done, else `overdueDuration >= MaxOverdueDuration` (`Model.C10.isSlowDown`) -/
-theorem isSlowDown_regenerated : Gen.RespGuard.waiterIsSlowDownStmts =
-    ["select { case <-v0.Done(): return false default: return v1.overdueDuration >= MaxOverdueDuration }"] := by decide
 
 end Pandora.Proofs.C10
